@@ -304,6 +304,7 @@ func rangeLemmas(r *Run, cfg rcConfig, items []rangeItem) {
 		r.Infra("cfg %s: deferred callback failed: %v", cfg, err)
 		return
 	}
+	e.Refine()
 	cones := coneConsMulti(e, xs)
 	for i, it := range items {
 		it := it
@@ -315,6 +316,7 @@ func rangeLemmas(r *Run, cfg rcConfig, items []rangeItem) {
 
 		// (=>) accepted implies in range
 		em := sym.NewEmitter()
+		em.Refined = true
 		c1 := conj(em, cs)
 		xn := em.Ref(x)
 		em.Assert(c1)
@@ -341,6 +343,7 @@ func rangeLemmas(r *Run, cfg rcConfig, items []rangeItem) {
 		switch it.compl {
 		case "direct":
 			em2 := sym.NewEmitter()
+			em2.Refined = true
 			c2 := conj(em2, cs)
 			xn2 := em2.Ref(x)
 			used := map[*sym.Term]bool{}
@@ -373,6 +376,7 @@ func rangeLemmas(r *Run, cfg rcConfig, items []rangeItem) {
 				continue
 			}
 			em2 := sym.NewEmitter()
+			em2.Refined = true
 			cN := conj(em2, cs)
 			cP := conj(em2, cones[pi])
 			xn2, xp := em2.Ref(x), em2.Ref(xs[pi])
@@ -391,6 +395,7 @@ func rangeLemmas(r *Run, cfg rcConfig, items []rangeItem) {
 
 		// vacuity guard: the constraints are satisfiable at all
 		em3 := sym.NewEmitter()
+		em3.Refined = true
 		em3.Assert(conj(em3, cs))
 		r.Add(&Ob{Name: name + "/reach", Family: "vacuity-guard", Expect: smt.Sat, Guard: true, Script: em3.String(), Bound: bnd})
 	}
